@@ -51,6 +51,7 @@ type Script struct {
 	TimeoutMs  int      `json:"timeout_ms,omitempty"`  // request timeout of the client, 0 = none
 	WaitUs     int      `json:"wait_us,omitempty"`     // unit of Waits in microseconds (0 = 1000: milliseconds)
 	PaceLatUs  int      `json:"pace_lat_us,omitempty"` // the pacer itself takes this long to answer (0 = no time at all)
+	TailMs     int      `json:"tail_ms,omitempty"`     // responses of 8 bytes whose second half arrives this much later; the attacker keeps 2 bytes (max-body)
 	StepMs     int      `json:"step_ms,omitempty"`     // the monitor looks at the run every StepMs instants (0 = 1: every instant)
 }
 
@@ -143,11 +144,34 @@ func (rt *scriptRT) RoundTrip(req *http.Request) (*http.Response, error) {
 		time.Sleep(time.Duration(d) * time.Millisecond)
 	}
 	rt.tr.Emit("Exit", KV{"t": rt.now(), "seq": seq})
+	var body io.ReadCloser = io.NopCloser(bytes.NewReader(nil))
+	if rt.sc.TailMs > 0 {
+		body = &lateTail{wait: time.Duration(rt.sc.TailMs) * time.Millisecond}
+	}
 	return &http.Response{
 		Status: "200 OK", StatusCode: 200, Proto: "HTTP/1.1", ProtoMajor: 1, ProtoMinor: 1,
-		Header: http.Header{}, Body: io.NopCloser(bytes.NewReader(nil)), Request: req,
+		Header: http.Header{}, Body: body, Request: req,
 	}, nil
 }
+
+// lateTail is a response body of eight bytes whose second half arrives late (the server flushed the head and took its time).
+type lateTail struct {
+	wait time.Duration
+	pos  int
+}
+
+func (b *lateTail) Read(p []byte) (int, error) {
+	switch {
+	case b.pos >= 8:
+		return 0, io.EOF
+	case b.pos == 4:
+		time.Sleep(b.wait)
+	}
+	n := copy(p, "headtail"[b.pos:min(8, b.pos/4*4+4)])
+	b.pos += n
+	return n, nil
+}
+func (b *lateTail) Close() error { return nil }
 
 var bubbleRe = regexp.MustCompile(`synctest bubble (\d+)`)
 
@@ -207,7 +231,8 @@ func scriptHorizon(sc *Script) int {
 	// less likely than 1e-18.
 	tail := pick(sc.Waits, len(sc.Waits), 0) + pick(sc.Lat, len(sc.Lat), 0) + pick(sc.Cons, len(sc.Cons), 0) + 1
 	plat := (sc.PaceLatUs + 999) / 1000 // every answer of a slow pacer takes this long
-	tail += plat
+	tail += plat + sc.TailMs
+	sum += sc.TailMs * (len(sc.Waits) + 4)
 	h := last + sum + horizonSlack + 60*tail + plat*max(len(sc.Waits), sc.StopCall)
 	if sc.MaxHits > 0 {
 		h += sc.MaxHits * tail
@@ -246,6 +271,9 @@ func runScript(t *testing.T, tr *Tracer, sc *Script) {
 		}
 		if sc.MaxWorkers >= 0 {
 			opts = append(opts, vegeta.MaxWorkers(uint64(sc.MaxWorkers)))
+		}
+		if sc.TailMs > 0 {
+			opts = append(opts, vegeta.MaxBody(2))
 		}
 		if sc.ID%5 == 3 {
 			// an option that starts a helper goroutine of its own (the hourly refresh of the DNS cache, set up on the default
